@@ -46,6 +46,7 @@ func main() {
 	runSpecialParity()
 	runConflictingLevelHint()
 	runGS1()
+	runTwinSequences()
 	runAutoMask()
 	runPenaltyRules()
 	runCharacterSweeps()
